@@ -2,6 +2,7 @@ import Driver.Codec
 import PyGqlModel.Exec
 import PyGqlModel.World
 import PyGqlModel.Spec.ExecSpec
+import PyGqlModel.Spec.ValidDoc
 open PyGql PyGql.Exec
 
 namespace Driver.ExecOps
@@ -78,7 +79,9 @@ def handle? (j : J) : Option J :=
     let sp := PyGql.Spec.executeRequestS s doc vars w opname fuel fuel
     let mj := responseToJson m
     let sj := responseToJson sp
-    some (.obj [("model", mj), ("spec", sj), ("quirk_dup", .bool (mj.render != sj.render))])
+    some (.obj [("model", mj), ("spec", sj), ("quirk_dup", .bool (mj.render != sj.render)),
+                ("validdoc", .bool (PyGql.Spec.validDocB s doc vars)), ("validdoc_why", .str (PyGql.Spec.validDocWhy s doc vars)),
+                ("key_consistent", .bool (PyGql.Spec.keyConsistentB doc))])
   | "world" =>
     let s := Driver.schemaOfJson (j.getD "schema")
     let w := fnvWorld s (j.natD "seed") (j.natD "mode")
